@@ -2566,6 +2566,16 @@ class sptensor:
                     else:
                         newsz.append(max([self.shape[n], max(key_n) + 1]))
                     m = m + 1
+            # A slice must name as many positions as the right-hand side has in
+            # that mode (checked before anything is changed)
+            m = 0
+            for n, key_n in enumerate(key):
+                if isinstance(key_n, slice):
+                    if len(range(*key_n.indices(newsz[n]))) != value.shape[m]:
+                        assert False, "RHS does not match range size"
+                    m = m + 1
+                elif not isinstance(key_n, (float, int)):
+                    m = m + 1
             self.shape = tuple(newsz)
 
             # Expand subs array if there are new modes, i.e., if the order
